@@ -381,6 +381,98 @@ def job_interface_scaling(lower, upper):
     return {'results': res, 'encoded': loader.ENCODED, 'axioms': CTX.axiom_notes, 'label': 'interface scaling ' + tag}
 
 
+def _fp_eval(expr, env, fn_node):
+    """evaluate a Python AST expression on Float64 terms; a name that is not in `env` is resolved through its (first) defining assignment in the same function"""
+    from symx import fp
+
+    class Env(dict):
+        def __missing__(self, key):
+            for n in ast.walk(fn_node):
+                if isinstance(n, ast.Assign) and len(n.targets) == 1 and isinstance(n.targets[0], ast.Name) and n.targets[0].id == key:
+                    v = _fp_eval(n.value, self, fn_node)
+                    self[key] = v
+                    return v
+            raise RuntimeError('layer-bound expression reads %r, which has no defining assignment in the function (harness out of date with respect to the current source)' % key)
+
+    class Lit(ast.NodeTransformer):
+        def visit_Constant(self, n):
+            if isinstance(n.value, (int, float)) and not isinstance(n.value, bool):
+                return ast.copy_location(ast.Call(func=ast.Name(id='_fpv', ctx=ast.Load()), args=[ast.Constant(value=float(n.value))], keywords=[]), n)
+            return n
+    e = Lit().visit(ast.Expression(body=ast.parse(ast.unparse(expr), mode='eval').body))
+    ast.fix_missing_locations(e)
+    env = env if isinstance(env, Env) else Env(env)
+    env.setdefault('_fpv', lambda v: fp.FPV(z3.FPVal(v, fp.F64.sort), fp.F64, False))
+    return eval(compile(e, 'solver.pyx:layer-bound', 'eval'), {}, env)
+
+
+def job_fp_layer_bound():
+    """Float64 (QF_FP): with nondimensionalize the radius array is scaled by the kernel, the user's layer bounds by a statement of cf_radial_solver. The slice search compares the two
+    (`radius_check > layer_upper_radius`), and a bound normally IS one of the radii: both must be rounded the same way, for every finite positive radius and planet radius."""
+    from symx import fp
+    S = fp.F64
+    r, R = fp.FPV.sym('r_bound', S), fp.FPV.sym('R_planet', S)
+    # kernel side: the in-place statement on radius_array_ptr of cf_non_dimensionalize_physicals
+    ksrc = open(os.path.join(REPO, ND)).read()
+    kcode, kspan = pyx2py.translit_function(ksrc, 'cf_non_dimensionalize_physicals')
+    kfn = ast.parse(kcode).body[0]
+    aug = [n for n in ast.walk(kfn) if isinstance(n, ast.AugAssign) and isinstance(n.target, ast.Subscript) and isinstance(n.target.value, ast.Name) and n.target.value.id == 'radius_array_ptr']
+    if len(aug) != 1 or not isinstance(aug[0].op, (ast.Div, ast.Mult)):
+        raise RuntimeError('scaling statement of radius_array_ptr not found in cf_non_dimensionalize_physicals (harness out of date)')
+    kval = _fp_eval(aug[0].value, {'mean_radius': R}, kfn)
+    A = (r / kval) if isinstance(aug[0].op, ast.Div) else (r * kval)
+    # solver side: the assignment to layer_upper_radius under `if nondimensionalize:`
+    ssrc = open(os.path.join(REPO, SOLVER)).read()
+    scode, sspan = pyx2py.translit_function(ssrc, 'cf_radial_solver')
+    sfn = ast.parse(scode).body[0]
+    cands = []
+    for n in ast.walk(sfn):
+        if isinstance(n, ast.If) and isinstance(n.test, ast.Name) and n.test.id == 'nondimensionalize':
+            for st in n.body:
+                if isinstance(st, ast.Assign) and isinstance(st.targets[0], ast.Name) and st.targets[0].id == 'layer_upper_radius':
+                    cands.append(st)
+    if len(cands) != 1:
+        raise RuntimeError('non-dimensionalisation of layer_upper_radius not found in cf_radial_solver (harness out of date)')
+    Bv = _fp_eval(cands[0].value, {'layer_upper_radius': r, 'radius_planet': R}, sfn)
+    loader.ENCODED.append({'file': SOLVER, 'function': 'cf_radial_solver: scaling of layer_upper_radius (AST slice)', 'sha256_16': solve.sha_of(ast.unparse(cands[0])), 'via': 'Float64 terms'})
+    loader.ENCODED.append({'file': ND, 'function': 'cf_non_dimensionalize_physicals: scaling of radius_array_ptr (AST slice)', 'sha256_16': solve.sha_of(ast.unparse(aug[0])), 'via': 'Float64 terms'})
+    pos = lambda v: z3.And(z3.Not(z3.fpIsNaN(v.t)), z3.Not(z3.fpIsInf(v.t)), z3.fpIsNormal(v.t), z3.fpIsPositive(v.t))
+    Aass = [pos(r), pos(R), z3.fpLEQ(r.t, R.t)]
+    goal = z3.fpEQ(A.t, Bv.t)
+
+    def rp(md):
+        # candidates a user would pass (planet radii and layer bounds in metres): the two roundings through the current source expressions, then the real solver with and without nondimensionalize
+        import numpy as np
+        code = ('import sys, json\nsys.modules["diffeqpy"] = None\nimport numpy as np\nfrom TidalPy.RadialSolver import radial_solver\n'
+                'G = 6.67430e-11\nout = []\n'
+                'for R, rb in ((5.0e6, 2.0e6), (5.0e6, 2.75e6), (1.8216e6, 0.9e6), (7.0e6, 3.5e6)):\n'
+                '    ks = []\n'
+                '    for nd in (True, False):\n'
+                '        N = 40\n'
+                '        radius = np.concatenate([np.linspace(0.01 * R, rb, N), np.linspace(rb, R, N + 1)[1:]])\n'
+                '        rho = np.where(radius <= rb, 8000., 3500.)\n'
+                '        from TidalPy.utilities.spherical_helper import calculate_mass_gravity_arrays\n'
+                '        vol, mass, g = calculate_mass_gravity_arrays(radius, rho)\n'
+                '        K = np.full(radius.size, 2e11); mu = np.where(radius <= rb, 1e11 + 1e9j, 6e10 + 1e9j).astype(np.complex128)\n'
+                '        s = radial_solver(radius, rho, g, K, mu, 1e-5, float(np.sum(mass) / np.sum(vol)), ("solid", "solid"), (False, False), (False, False), (rb, R), degree_l=2, nondimensionalize=nd)\n'
+                '        ks.append(complex(s.k[0]) if s.success else None)\n'
+                '    out.append([R, rb, None if ks[0] is None else [ks[0].real, ks[0].imag], None if ks[1] is None else [ks[1].real, ks[1].imag]])\n'
+                'print("@@RESULT@@" + json.dumps(out))\n')
+        import subprocess, tempfile, json
+        with tempfile.TemporaryDirectory(prefix='verif_c03_') as td:
+            p = subprocess.run([replay.VENV_PY, '-c', code], capture_output=True, text=True, cwd=td, env=dict(os.environ, PYTHONPATH=REPO), timeout=1200)
+        detail = 'Float64 model r=%r R=%r: kernel scaling %s and layer-bound scaling %s round differently' % (md.get('r_bound'), md.get('R_planet'), ast.unparse(aug[0]), ast.unparse(cands[0]))
+        if '@@RESULT@@' in p.stdout:
+            rows = json.loads(p.stdout.split('@@RESULT@@')[-1])
+            bad = [rw for rw in rows if rw[2] is None or rw[3] is None or abs(complex(*rw[2]) - complex(*rw[3])) > 1e-4 * abs(complex(*rw[3]))]
+            detail += ' ; REAL radial_solver, two solid layers, k2 with nondimensionalize=True vs False for (R, bound): %s%s' % (json.dumps(rows), ' -> DIFFER' if bad else ' -> agree for these radii')
+        return True, detail
+    res = [discharge(Obligation('Float64: a layer bound and the radius array are non-dimensionalised to the same double (kernel: %s ; solver: %s), for all finite positive r <= R' % (
+        ast.unparse(aug[0]), ast.unparse(cands[0])), goal, Aass, with_axioms=False, with_dens=False, replay=rp, key='fp:layer-bound', timeout_ms=solve.qtimeout(120, 600)))]
+    res.append({'name': 'fp layer bound [reachability twin]', 'key': 'twin', 'twin': True, 'verdict': solve.sat_check(Aass, 60000), 'solver_s': 0.0, 'info': {}})
+    return {'results': res, 'encoded': loader.ENCODED, 'label': 'fp layer bound'}
+
+
 def main():
     ls = range(2, 11) if TIER == 'thorough' else (2, 3)
     jobs = []
@@ -391,6 +483,7 @@ def main():
         jobs.append((rs.job_packing, {'cls': cls, 'l': 3}))
     jobs.append((job_roundtrip, {}))
     jobs.append((job_array_indexing, {}))
+    jobs.append((job_fp_layer_bound, {}))
     for l in ls:
         jobs.append((job_bc_and_love, {'l': l}))
     for lo in c02.kinds():
